@@ -40,12 +40,30 @@ def guarded(fn, seconds=5.0):
         signal.signal(signal.SIGALRM, old)
 
 
+class _AllStepSub(AllStepManager):
+    """a subclass that overrides nothing (a project's own manager that only adds logging, say)"""
+
+
+class _TurnBasedSub(TurnBasedManager):
+    """a subclass that overrides nothing"""
+
+
+class _DynamicSub(DynamicOrderManager):
+    """a subclass that overrides nothing"""
+
+
 def make_manager(kind, sim, shuffle):
+    # (round 6) for half of the scripted simulations the manager is an instance of a SUBCLASS that overrides nothing:
+    # whoever asks what kind of manager it has (the OpenSpiel adapter, a wrapper) must ask with isinstance
+    sub = False
+    done_at = getattr(sim, "done_at", None)
+    if isinstance(done_at, list):
+        sub = (sum(int(x) % 7 for x in done_at) + len(done_at) + int(getattr(sim, "finish_at", 0)) % 5) % 2 == 1
     if kind == 0:
-        return AllStepManager(sim, randomize_action_input=bool(shuffle))
+        return (_AllStepSub if sub else AllStepManager)(sim, randomize_action_input=bool(shuffle))
     if kind == 1:
-        return TurnBasedManager(sim)
-    return DynamicOrderManager(sim)
+        return (_TurnBasedSub if sub else TurnBasedManager)(sim)
+    return (_DynamicSub if sub else DynamicOrderManager)(sim)
 
 
 def canon_obs_dict(sim, d, f):
